@@ -51,6 +51,10 @@ func c13Corpus() []c13Entry {
 	return []c13Entry{
 		{"print", one(t("a"), mt.P(mt.V("s")), t("b"), mt.P(mt.Op("~", mt.V("s"), mt.S("!"))), t("c"))},
 		{"print-literals", one(t("a"), mt.P(mt.I(1)), t("b"), mt.P(mt.Op("*", mt.I(2), mt.I(3))), t("c"), mt.P(mt.Op("~", mt.I(7), mt.V("s"))), t("d"), mt.P(mt.S("q")), t("e"), mt.P(mt.Paren{E: mt.I(4)}), t("f"))},
+		// print tags whose expression ends in the closing brace of a hash literal (the brace and the delimiter meet when
+		// the source is printed without blanks inside the delimiters; a right dash keeps them apart)
+		{"print-hash", one(t("a"), mt.P(mt.Hash{Keys: []string{"k"}, Vals: []mt.Expr{mt.I(1)}}), t("b"), mt.P(mt.Hash{}), t("c"))},
+		{"print-hash-nested", one(t("a"), mt.P(mt.Hash{Keys: []string{"o"}, Vals: []mt.Expr{mt.Hash{Keys: []string{"i"}, Vals: []mt.Expr{mt.V("s")}}}}), t("b"), mt.P(mt.Arr{Items: []mt.Expr{mt.Hash{Keys: []string{"q"}, Vals: []mt.Expr{mt.Hash{}}}}}), t("c"))},
 		{"if", one(t("a"), mt.If{Conds: []mt.Expr{yes}, Bodies: [][]mt.Stmt{{t("T")}}}, t("b"))},
 		{"if-else", one(t("a"), mt.If{Conds: []mt.Expr{no}, Bodies: [][]mt.Stmt{{t("T")}}, HasElse: true, Else: []mt.Stmt{t("E")}}, t("b"))},
 		{"if-elseif-else", one(t("a"), mt.If{Conds: []mt.Expr{no, yes}, Bodies: [][]mt.Stmt{{t("T")}, {t("U")}}, HasElse: true, Else: []mt.Stmt{t("E")}}, t("b"))},
@@ -84,7 +88,9 @@ func c13Ctx() map[string]mt.Val {
 
 const wsChars = " \t\r\n"
 
-var c13NearWS = []string{"\u00a0", "\v", "\f", "\u0085", "\u2003", "\u2028", "\u3000", "\x00", "\ufeff", "\x1f", "\xa0", "\u200b"}
+// (the second row: characters whose code point ends in the byte of a blank - 0x20, 0x09, 0x0A, 0x0D - and is none)
+var c13NearWS = []string{"\u00a0", "\v", "\f", "\u0085", "\u2003", "\u2028", "\u3000", "\x00", "\ufeff", "\x1f", "\xa0", "\u200b",
+	"\u0120", "\u010d", "\u0109", "\u010a", "\u2020", "\u4e0a", "\u4e09", "\u4e0d", "\U0001f609", "\u0420"}
 
 func randWS(r *core.Rand) string {
 	n := []int{0, 0, 1, 1, 2, 3, 4}[r.Intn(7)]
@@ -204,6 +210,13 @@ func (p *c13) checkBits(rec *core.Recorder, class string, srcsPlain map[string]s
 	}
 	if rd.Panicked {
 		rec.Violate("panic", "panic@"+rd.Site, "engine panicked: "+rd.PanicVal, cs, rd.Stack)
+		return
+	}
+	if !rp.Panicked && !rh.Panicked && !rd.Panicked && rh.Err != nil && rd.Err == nil {
+		// "never changes whether a template parses" cuts both ways: the dashes must not make a template work whose
+		// hand-trimmed twin does not
+		rec.Violate("dash-acceptance", core.SigHash("c13-parse-rev", dsrc),
+			fmt.Sprintf("dashes changed whether the template works: the dashed source renders %s, the same source with the dashes removed and the blanks deleted by hand fails: %v; dashed source %s", core.Q(core.Trunc(rd.Out, 100)), rh.Err, core.Q(core.Trunc(dsrc, 300))), cs, "")
 		return
 	}
 	if rp.Err != nil || rh.Err != nil || rp.Panicked || rh.Panicked {
